@@ -226,7 +226,7 @@ def judge(chk, c, obs, dropped):
 
 def main(tier, seed, scale=1.0):
     chk = Check(PROP, tier, seed)
-    n = int((480 if tier == "quick" else 40000) * scale)
+    n = int((960 if tier == "quick" else 40000) * scale)
     chk.rule = ("random struct/enum/union definitions with Default educed: default-variant / default-field marker at "
                 "every position, single-variant shortcut, per-field expressions in every spelling, type-level expression, "
                 "new; plus literal workloads (int, negative, float, bool, char, str, byte literals into natural, wider and "
